@@ -9,6 +9,13 @@ def S(bin, cases, cfg="native", **kw):
     return d
 
 
+def F(bin, runs, **kw):
+    """coverage-guided stage: the same property bodies under libFuzzer + ASan (cfg asan); budget = total executions"""
+    d = {"cfg": "asan", "bin": bin, "cases": runs, "engine": "fuzz"}
+    d.update(kw)
+    return d
+
+
 PLANS = {}
 
 
@@ -155,7 +162,7 @@ plan("C06", "fault_enumeration",
      "deflate generator and wrapper-level single faults with padding (documented error class); random bytes and multiply damaged streams with small output limits; x APIs x chunk schedules x decode kernels. "
      "Oracle: guard pages/canaries, documented codes, provable-livelock rule, lenient RFC 1951 reference (no false success), zlib agreement on strictly valid raw streams. "
      "Non-trivial: mutant got past the wrapper and produced output.",
-     lambda tier: [S("C06", 6000 if tier == "quick" else 80000)],
+     lambda tier: [S("C06", 5000), F("C06", 1600)] if tier == "quick" else [S("C06", 80000), F("C06", 60000)],
      assumptions=["error-class equality is asserted only for constructed single faults followed by >= 16 padding bytes", "incomplete code sets are a grey zone: neither acceptance nor rejection is an alarm",
                   "rejection of something the lenient reference accepts is never an alarm"])
 
